@@ -6,6 +6,7 @@ import (
 	"fmt"
 	"go/token"
 	"go/types"
+	"math/big"
 	"strings"
 
 	"golang.org/x/tools/go/ssa"
@@ -621,4 +622,132 @@ func runBody(fr *frame, args []value) value {
 		runFrame(fr)
 	}
 	return fr.result
+}
+
+// ---- abstract instants, durations in seconds
+
+func init() {
+	// vpTimeInt(name) int64: an abstract instant (mathematical integer of
+	// nanoseconds, 0 <= T < 2^61) entering the code as an int64.
+	harnessAPI["vpTimeInt"] = func(fr *frame, args []value) value {
+		i := fr.i
+		name, _ := args[0].(string)
+		T := i.draw(name, sInt)
+		lim := new(big.Rat).SetInt(new(big.Int).Lsh(big.NewInt(1), 61))
+		i.assume(i.ts.And(i.ts.ArithCmp("<=", i.ts.IntC(0), T), i.ts.ArithCmp("<", T, i.ts.RealCInt(lim))))
+		return i.ts.Int2BV(64, T)
+	}
+	externals["(time.Time).Sub"] = func(fr *frame, args []value) value {
+		i := fr.i
+		te, tm := i.timeMono(args[0])
+		ue, um := i.timeMono(args[1])
+		if tm && um && (isSym(te) || isSym(ue)) {
+			// both carry the virtual clock; instants are below 2^61 so the difference cannot overflow
+			return i.norm(i.ts.BVOp("bvsub", i.toTerm(te), i.toTerm(ue)), types.Typ[types.Int64])
+		}
+		fr2 := &frame{i: fr.i, caller: fr.caller, fn: fr.fn}
+		return runBody(fr2, args)
+	}
+	externals["(time.Duration).Seconds"] = func(fr *frame, args []value) value {
+		i := fr.i
+		d, ok := args[0].(*Term)
+		if !ok {
+			fr2 := &frame{i: fr.i, caller: fr.caller, fn: fr.fn}
+			return runBody(fr2, args)
+		}
+		if i.cfg.FloatMode == "real" {
+			var n *Term
+			if l, _, ok := i.ts.liftInt(d); ok {
+				n = l
+			} else {
+				u := i.ts.Generic("bv2nat", sInt, d)
+				msb := i.ts.BVCmp("bvslt", d, i.ts.BV(64, 0))
+				p := new(big.Rat).SetInt(new(big.Int).Lsh(big.NewInt(1), 64))
+				n = i.ts.Ite(msb, i.ts.Arith("-", sInt, u, i.ts.RealCInt(p)), u)
+			}
+			return i.ts.Arith("/", sReal, i.ts.Generic("to_real", sReal, n), i.ts.RealC(big.NewRat(1_000_000_000, 1)))
+		}
+		// IEEE mode: any finite non-negative double stands for the seconds of a non-negative
+		// duration (an over-approximation of the values d/1e9 can take), zero exactly for d == 0
+		e := i.draw("seconds", sFP)
+		zero := i.ts.FPC(0)
+		nonneg := i.ts.BVCmp("bvsle", i.ts.BV(64, 0), d)
+		c := i.ts.And(i.ts.Not(i.ts.Generic("fp.isNaN", sBool, e)), i.ts.Not(i.ts.Generic("fp.isInfinite", sBool, e)))
+		c = i.ts.And(c, i.ts.Eq(nonneg, i.ts.Generic("fp.leq", sBool, zero, e)))
+		c = i.ts.And(c, i.ts.Eq(i.ts.Eq(d, i.ts.BV(64, 0)), i.ts.Generic("fp.eq", sBool, e, zero)))
+		c = i.ts.And(c, i.ts.Generic("fp.leq", sBool, e, i.ts.FPC(9.3e9)))
+		c = i.ts.And(c, i.ts.Generic("fp.leq", sBool, i.ts.FPC(-9.3e9), e))
+		i.assume(c)
+		return e
+	}
+}
+
+// ---- sync.Map: sequential map kept in the struct's "dirty" slot
+
+func syncMapOf(fr *frame, recv value, create bool) *omap {
+	p := recv.(*value)
+	if p == nil {
+		fr.i.nilDeref()
+	}
+	st := (*p).(structure)
+	// struct{ mu Mutex; read atomic.Pointer[readOnly]; dirty map[any]*entry; misses int }
+	if m, ok := st[2].(*omap); ok && m != nil {
+		return m
+	}
+	if !create {
+		return nil
+	}
+	m := newOmap(types.NewInterfaceType(nil, nil))
+	st[2] = m
+	return m
+}
+
+func init() {
+	externals["(*sync.Map).Load"] = func(fr *frame, args []value) value {
+		m := syncMapOf(fr, args[0], false)
+		if v, ok := fr.i.mapLookup(m, args[1]); ok {
+			return tuple{v, true}
+		}
+		return tuple{iface{}, false}
+	}
+	externals["(*sync.Map).Store"] = func(fr *frame, args []value) value {
+		fr.i.mapInsert(syncMapOf(fr, args[0], true), args[1], args[2])
+		return nil
+	}
+	externals["(*sync.Map).LoadOrStore"] = func(fr *frame, args []value) value {
+		m := syncMapOf(fr, args[0], true)
+		if v, ok := fr.i.mapLookup(m, args[1]); ok {
+			return tuple{v, true}
+		}
+		fr.i.mapInsert(m, args[1], args[2])
+		return tuple{args[2], false}
+	}
+	externals["(*sync.Map).LoadAndDelete"] = func(fr *frame, args []value) value {
+		m := syncMapOf(fr, args[0], false)
+		if v, ok := fr.i.mapLookup(m, args[1]); ok {
+			fr.i.mapDelete(m, args[1])
+			return tuple{v, true}
+		}
+		return tuple{iface{}, false}
+	}
+	externals["(*sync.Map).Delete"] = func(fr *frame, args []value) value {
+		if m := syncMapOf(fr, args[0], false); m != nil {
+			fr.i.mapDelete(m, args[1])
+		}
+		return nil
+	}
+	externals["(*sync.Map).Range"] = func(fr *frame, args []value) value {
+		m := syncMapOf(fr, args[0], false)
+		if m == nil {
+			return nil
+		}
+		ks := append([]value(nil), m.keys...)
+		vs := append([]value(nil), m.vals...)
+		for k := range ks {
+			if !fr.i.truth(call(fr.i, fr, 0, args[1], []value{ks[k], vs[k]})) {
+				break
+			}
+		}
+		return nil
+	}
 }
